@@ -21,7 +21,7 @@ pub struct C12;
 const SHAPES: [&[i8]; 3] = [&[-1, 0], &[-1, 0, 1], &[-1, 0, 0]];
 const SR: u32 = 8;
 const IBS: usize = 2;
-const NODE_LETTERS: [&str; 11] = [
+const NODE_LETTERS: [&str; 13] = [
 	"pause(instant)",
 	"pause(2 frames)",
 	"resume(instant)",
@@ -33,6 +33,8 @@ const NODE_LETTERS: [&str; 11] = [
 	"add nested child track with a sound",
 	"add nested child track with a sound, then drop this track's handle (no callback in between)",
 	"play another sound on this track, then drop this track's handle (no callback in between)",
+	"pause(instant), then resume(instant) (no callback in between)",
+	"resume_at(Delayed 3 frames), then resume(2 frames) (no callback in between)",
 ];
 const GLOBAL_LETTERS: [&str; 3] = ["none", "start clock", "remove clock"];
 
@@ -106,7 +108,7 @@ impl Check for C12 {
 		format!("tree {:?} persist {:#05b}", SHAPES[s], pv)
 	}
 	fn rule(&self) -> String {
-		"3 tree shapes (chain of 2, chain of 3, parent with two children), every track carrying an index-coded looping sound, x 3 persistence variants x all histories of length <= depth over {none, start clock, remove clock} + per track {pause 0/2f, resume 0/2f, resume_at delayed/clock, drop handle, finish sound, add nested child}; after every callback: exact audio vs the tree-freeze reference (positions are read off the index-coded ramps), TrackHandle::state() of every live handle inside catch_unwind. plus E2: all interleavings (preemption bound 2 / 3) of a thread reading TrackHandle::state() three times with the audio thread running 2 callbacks, in 4 life-cycle situations (pause fade in flight, resume fade in flight, scheduled resume whose clock has just been removed, scheduled resume falling due). states = distinct (adopted, marked, removed, pause state) vectors; non-trivial = histories in which some track left the Playing state or was removed".into()
+		"3 tree shapes (chain of 2, chain of 3, parent with two children), every track carrying an index-coded looping sound, x 3 persistence variants x all histories of length <= depth over {none, start clock, remove clock} + per track {pause 0/2f, resume 0/2f, resume_at delayed/clock, drop handle, finish sound, add nested child, pause-then-resume and resume_at-then-resume within one callback interval}; after every callback: exact audio vs the tree-freeze reference (positions are read off the index-coded ramps), TrackHandle::state() of every live handle inside catch_unwind. plus E2: all interleavings (preemption bound 2 / 3) of a thread reading TrackHandle::state() three times with the audio thread running 2 callbacks, in 4 life-cycle situations (pause fade in flight, resume fade in flight, scheduled resume whose clock has just been removed, scheduled resume falling due). states = distinct (adopted, marked, removed, pause state) vectors; non-trivial = histories in which some track left the Playing state or was removed".into()
 	}
 	fn assumptions(&self) -> Vec<String> {
 		vec![
@@ -219,6 +221,14 @@ fn run_history(shape: usize, pv: u8, seq: &[usize], ctx: &mut Ctx) {
 					if let Some(si) = (0..w.sounds.len()).find(|s| w.sounds[*s].on == Target::Node(i) && !w.sounds[*s].shared.finished.load(std::sync::atomic::Ordering::SeqCst)) {
 						w.finish_sound(si);
 					}
+				}
+				11 => {
+					w.pause_node(i, 0.0);
+					w.resume_node(i, 0.0);
+				}
+				12 => {
+					w.resume_node_at(i, StartTime::Delayed(Duration::from_secs_f64(3.0 / SR as f64)), StartM::Delayed(3.0 / SR as f64), 0.0);
+					w.resume_node(i, 2.0 / SR as f64);
 				}
 				10 => {
 					if w.nodes[i].handle.is_some() {
@@ -408,6 +418,7 @@ fn e2_state(tier: Tier, which: u64, ctx: &mut Ctx) {
 		}
 	};
 	let stats = sched::explore(tier.pick(Some(2), Some(3)), 3_000_000, &mut body, &mut judge);
+	sched::report(ctx, &stats);
 	if let Some(e) = stats.error {
 		ctx.fail(format!("MACHINERY: scheduler error: {}", e), "");
 	}
